@@ -219,97 +219,137 @@ end dict
 
 -- prefixes and the longest-prefix search ---------------------------------------------------
 
-/-- `k` is a non-empty proper prefix of the request path `p` -/
-def ProperPrefix (k p : Path) : Prop := k ≠ [] ∧ k.length < p.length ∧ k <+: p
+/-- `k` is a proper prefix of the request path `p` (the empty path is one of every non-empty
+path) -/
+def ProperPrefix (k p : Path) : Prop := k.length < p.length ∧ k <+: p
 
-theorem properPrefix_take {p : Path} {j : Nat} (h1 : 1 ≤ j) (h2 : j ≤ p.length - 1) :
+theorem properPrefix_take {p : Path} {j : Nat} (h : j < p.length) :
     ProperPrefix (p.take j) p := by
-  refine ⟨?_, ?_, List.take_prefix j p⟩
-  · intro h
-    have := congrArg List.length h
-    simp only [List.length_take, List.length_nil] at this
-    omega
-  · simp only [List.length_take]; omega
+  refine ⟨?_, List.take_prefix j p⟩
+  simp only [List.length_take]; omega
 
 theorem ProperPrefix.eq_take {k p : Path} (h : ProperPrefix k p) :
-    k = p.take k.length ∧ 1 ≤ k.length ∧ k.length ≤ p.length - 1 := by
-  obtain ⟨hne, hlt, hpre⟩ := h
-  refine ⟨(List.prefix_iff_eq_take.mp hpre), ?_, by omega⟩
-  cases k with
-  | nil => exact absurd rfl hne
-  | cons _ _ => simp
+    k = p.take k.length ∧ k.length ≤ p.length - 1 := by
+  obtain ⟨hlt, hpre⟩ := h
+  exact ⟨(List.prefix_iff_eq_take.mp hpre), by omega⟩
+
+theorem ProperPrefix.ne_nil {k p : Path} (h : ProperPrefix k p) : p ≠ [] := by
+  intro e; subst e; have := h.1; simp at this
 
 theorem ProperPrefix.split {k p : Path} (h : ProperPrefix k p) :
     k ++ p.drop k.length = p ∧ p.drop k.length ≠ [] := by
-  obtain ⟨h1, _, _⟩ := h.eq_take
+  obtain ⟨h1, _⟩ := h.eq_take
   refine ⟨?_, ?_⟩
   · conv => lhs; rw [h1]
     simp only [List.length_take]
-    rw [Nat.min_eq_left (by have := h.2.1; omega)]
+    rw [Nat.min_eq_left (by have := h.1; omega)]
     exact List.take_append_drop _ _
   · intro hd
     have := congrArg List.length hd
     simp only [List.length_drop, List.length_nil] at this
-    have := h.2.1
+    have := h.1
     omega
 
 theorem bestSplit_some {ks : List Path} {p : Path} {n k : Nat}
     (h : bestSplit ks p n = some k) :
-    1 ≤ k ∧ k ≤ n ∧ p.take k ∈ ks ∧ ∀ j, k < j → j ≤ n → p.take j ∉ ks := by
+    k ≤ n ∧ p.take k ∈ ks ∧ ∀ j, k < j → j ≤ n → p.take j ∉ ks := by
   induction n with
-  | zero => cases h
+  | zero =>
+    unfold bestSplit at h
+    by_cases hm : ([] : Path) ∈ ks
+    · simp only [hm, ↓reduceIte, Option.some.injEq] at h
+      subst h
+      exact ⟨Nat.le_refl _, by simpa using hm, fun j h1 h2 => by omega⟩
+    · simp [hm] at h
   | succ n ih =>
     unfold bestSplit at h
     by_cases hm : p.take (n + 1) ∈ ks
     · simp only [hm, ↓reduceIte, Option.some.injEq] at h
       subst h
-      exact ⟨by omega, by omega, hm, fun j h1 h2 => by omega⟩
+      exact ⟨by omega, hm, fun j h1 h2 => by omega⟩
     · simp only [hm, ↓reduceIte] at h
-      obtain ⟨a, b, c, d⟩ := ih h
-      refine ⟨a, by omega, c, fun j h1 h2 => ?_⟩
+      obtain ⟨b, c, d⟩ := ih h
+      refine ⟨by omega, c, fun j h1 h2 => ?_⟩
       by_cases hj : j = n + 1
       · subst hj; exact hm
       · exact d j h1 (by omega)
 
 theorem bestSplit_none {ks : List Path} {p : Path} {n : Nat}
-    (h : bestSplit ks p n = none) : ∀ j, 1 ≤ j → j ≤ n → p.take j ∉ ks := by
+    (h : bestSplit ks p n = none) : ∀ j, j ≤ n → p.take j ∉ ks := by
   induction n with
-  | zero => intro j h1 h2; omega
+  | zero =>
+    intro j h2
+    have : j = 0 := by omega
+    subst this
+    unfold bestSplit at h
+    by_cases hm : ([] : Path) ∈ ks
+    · simp [hm] at h
+    · simpa using hm
   | succ n ih =>
     unfold bestSplit at h
     by_cases hm : p.take (n + 1) ∈ ks
     · simp [hm] at h
     · simp only [hm, ↓reduceIte] at h
-      intro j h1 h2
+      intro j h2
       by_cases hj : j = n + 1
       · subst hj; exact hm
-      · exact ih h j h1 (by omega)
+      · exact ih h j (by omega)
 
-/-- the search finds exactly the longest registered non-empty proper prefix -/
+/-- the search finds exactly the longest registered proper prefix -/
 theorem bestSplit_of_longest {ks : List Path} {p k : Path} (hk : k ∈ ks)
     (hpre : ProperPrefix k p)
     (hmax : ∀ k' ∈ ks, ProperPrefix k' p → k'.length ≤ k.length) :
     bestSplit ks p (p.length - 1) = some k.length := by
-  obtain ⟨h1, h2, h3⟩ := hpre.eq_take
+  obtain ⟨h1, h3⟩ := hpre.eq_take
+  have hlen := hpre.1
   cases h : bestSplit ks p (p.length - 1) with
   | none =>
-    exact absurd (h1 ▸ hk) (bestSplit_none h k.length h2 h3)
+    exact absurd (h1 ▸ hk) (bestSplit_none h k.length h3)
   | some j =>
-    obtain ⟨a, b, c, d⟩ := bestSplit_some h
-    have hle : (p.take j).length ≤ k.length := hmax _ c (properPrefix_take a b)
+    obtain ⟨b, c, d⟩ := bestSplit_some h
+    have hle : (p.take j).length ≤ k.length := hmax _ c (properPrefix_take (by omega))
     simp only [List.length_take] at hle
     have : j ≤ k.length := by omega
     by_cases hlt : j < k.length
     · exact absurd (h1 ▸ hk) (d k.length hlt h3)
     · congr; omega
 
-theorem bestSplit_none_of_no_prefix {ks : List Path} {p : Path}
+theorem bestSplit_none_of_no_prefix {ks : List Path} {p : Path} (hp : p ≠ [])
     (h : ∀ k ∈ ks, ¬ ProperPrefix k p) : bestSplit ks p (p.length - 1) = none := by
   cases hb : bestSplit ks p (p.length - 1) with
   | none => rfl
   | some j =>
-    obtain ⟨a, b, c, _⟩ := bestSplit_some hb
-    exact absurd (properPrefix_take a b) (h _ c)
+    obtain ⟨b, c, _⟩ := bestSplit_some hb
+    have : 0 < p.length := List.length_pos_iff.mpr hp
+    exact absurd (properPrefix_take (by omega)) (h _ c)
+
+/-- the candidates of the prefix search other than `k` are the same with and without `k` -/
+theorem bestSplit_congr_of_not_prefix {ks ks' : List Path} {p k : Path} (hp : p ≠ [])
+    (hnp : ¬ ProperPrefix k p) (hsame : ∀ k', k' ≠ k → (k' ∈ ks' ↔ k' ∈ ks)) :
+    bestSplit ks' p (p.length - 1) = bestSplit ks p (p.length - 1) := by
+  have hpos : 0 < p.length := List.length_pos_iff.mpr hp
+  have hmem : ∀ j, j ≤ p.length - 1 → (p.take j ∈ ks' ↔ p.take j ∈ ks) := by
+    intro j hj
+    exact hsame _ (fun e => hnp (e ▸ properPrefix_take (by omega)))
+  cases hb : bestSplit ks p (p.length - 1) with
+  | none =>
+    apply bestSplit_none_of_no_prefix hp
+    intro k' hk' hpre'
+    obtain ⟨h1, h3⟩ := hpre'.eq_take
+    have := (hmem k'.length h3).mp (h1 ▸ hk')
+    exact bestSplit_none hb _ h3 this
+  | some j =>
+    obtain ⟨b, c, d⟩ := bestSplit_some hb
+    have := bestSplit_of_longest (ks := ks') (p := p) (k := p.take j)
+      ((hmem j b).mpr c) (properPrefix_take (by omega)) (by
+        intro k' hk' hpre'
+        obtain ⟨h1, h3⟩ := hpre'.eq_take
+        simp only [List.length_take]
+        by_cases hlt : j < k'.length
+        · exact absurd ((hmem k'.length h3).mp (h1 ▸ hk')) (d _ hlt h3)
+        · omega)
+    simp only [List.length_take] at this
+    rw [this]; congr; omega
 
 -- the nested tree --------------------------------------------------------------------------
 
@@ -347,20 +387,58 @@ theorem routeFrom_node (rs : List (Path × Res)) (ss : List (Path × Site)) (ori
       match lookup p rs with
       | some r => some ⟨r.id, [], orig⟩
       | none =>
+        if p = [] then
+          if orig = [] then none
+          else match lookup [[]] rs with
+            | some r => some ⟨r.id, [], orig⟩
+            | none => none
+        else
+          match bestSplit (keys ss) p (p.length - 1) with
+          | none => none
+          | some k =>
+            match lookup (p.take k) ss with
+            | some t => t.routeFrom orig (normRem (p.drop k))
+            | none => none := by
+  rw [Site.routeFrom.eq_2]
+  cases lookup p rs with
+  | some r => rfl
+  | none =>
+    simp only
+    by_cases hp : p = []
+    · subst hp; rfl
+    · simp only [hp, ↓reduceIte]
+      cases bestSplit (keys ss) p (p.length - 1) with
+      | none => rfl
+      | some k => simp only [routeIn_eq]
+
+/-- `routeFrom` on a node for a non-empty request path -/
+theorem routeFrom_node_of_ne (rs : List (Path × Res)) (ss : List (Path × Site)) (orig : Path)
+    {p : Path} (hp : p ≠ []) :
+    (Site.node rs ss).routeFrom orig p =
+      match lookup p rs with
+      | some r => some ⟨r.id, [], orig⟩
+      | none =>
         match bestSplit (keys ss) p (p.length - 1) with
         | none => none
         | some k =>
           match lookup (p.take k) ss with
           | some t => t.routeFrom orig (normRem (p.drop k))
           | none => none := by
-  rw [Site.routeFrom.eq_2]
-  cases lookup p rs with
-  | some r => rfl
-  | none =>
-    simp only
-    cases bestSplit (keys ss) p (p.length - 1) with
-    | none => rfl
-    | some k => simp only [routeIn_eq]
+  rw [routeFrom_node]
+  simp only [hp, ↓reduceIte]
+
+/-- `routeFrom` on a node for the empty request path: the site's own root -/
+theorem routeFrom_node_nil (rs : List (Path × Res)) (ss : List (Path × Site)) (orig : Path) :
+    (Site.node rs ss).routeFrom orig [] =
+      match lookup [] rs with
+      | some r => some ⟨r.id, [], orig⟩
+      | none =>
+        if orig = [] then none
+        else match lookup [[]] rs with
+          | some r => some ⟨r.id, [], orig⟩
+          | none => none := by
+  rw [routeFrom_node]
+  simp only [↓reduceIte]
 
 theorem modifySubs_eq (f : Site → Option Site) (ss : List (Path × Site)) (k : Path)
     (ks : List Path) :
